@@ -282,10 +282,10 @@ class KMatrix(ModelItem):
         initial_concentration :
             The initial concentration.
         """
-        if np.sum(initial_concentration) != 1:
+        if initial_concentration[0] != 1 or np.count_nonzero(initial_concentration) != 1:
             return False
         matrix = self.reduced(compartments)
-        return not any(
+        return matrix[-1, -1] != 0 and not any(
             np.nonzero(matrix[:, i])[0].size != 1 or i != 0 and matrix[i, i - 1] == 0
             for i in range(matrix.shape[1])
         )
